@@ -19,10 +19,10 @@ type c12Event struct {
 	// Kind: recv (remote sends NOTIFICATION Code), marker (bad marker -> corebgp
 	// sends code 1), badopen (-> 2), handler (handler returns Code: 3, 7 or 6),
 	// silence (-> 4), wrongmsg (-> 5), fin, rst
-	Kind  string `json:"kind"`
-	Code  uint8  `json:"code,omitempty"`
-	Sub   *uint8 `json:"sub,omitempty"`  // subcode of a received / handler NOTIFICATION (nil: 1 / 2)
-	DLen  int    `json:"dlen,omitempty"` // data octets of a received NOTIFICATION
+	Kind string `json:"kind"`
+	Code uint8  `json:"code,omitempty"`
+	Sub  *uint8 `json:"sub,omitempty"`  // subcode of a received / handler NOTIFICATION (nil: 1 / 2)
+	DLen int    `json:"dlen,omitempty"` // data octets of a received NOTIFICATION
 	// Partial: fin / rst arrive after that many octets of an incomplete message
 	Partial int `json:"partial,omitempty"`
 	// Glued (recv): the last handshake message, the NOTIFICATION and the FIN
